@@ -444,6 +444,15 @@ class TransferFrame:
             frame.header.frame_len + 1 != frame_properties.fixed_len
         ):
             raise UslpInvalidRawPacketOrFrameLen
+        if frame_type != FrameType.FIXED:
+            # The whole frame, as declared by the frame length field (or, for truncated frames, by
+            # the managed truncated frame length), has to be inside the passed buffer
+            if header_type == HeaderType.TRUNCATED:
+                expected_frame_len = frame_properties.truncated_frame_len
+            else:
+                expected_frame_len = frame.header.frame_len + 1
+            if len(raw_frame) < expected_frame_len:
+                raise UslpInvalidRawPacketOrFrameLen
         exact_tfdf_len = cls.__get_tfdf_len(
             frame_type=frame_type,
             header_type=header_type,
